@@ -6,11 +6,13 @@
 package main
 
 import (
+	"bytes"
 	"errors"
 	"fmt"
 	"io"
 	"os"
 	"strings"
+	"time"
 
 	"go.uber.org/multierr"
 	"go.uber.org/zap"
@@ -253,6 +255,40 @@ func partRelays(run *ev.Run) (evals int) {
 					// CombineWriteSyncers of one
 					s6 := &scriptedSyncer{scripted{n: n, err: werr, serr: serr}}
 					check("CombineWriteSyncers(1)", zap.CombineWriteSyncers(s6), &s6.scripted, 1, serr)
+				}
+			}
+		}
+	}
+	// BufferedWriteSyncer over a sink with scripted outcomes: whatever the sink
+	// does, the io.Writer contract holds for the value BufferedWriteSyncer
+	// returns - never more than len(p), and a count below len(p) only together
+	// with a non-nil error; a sink that accepts everything gives (len(p), nil).
+	for _, size := range []int{4, 16} {
+		for _, pre := range []int{0, 2} {
+			for _, plen := range []int{0, 1, size - 1, size, size + 1, 3 * size} {
+				for _, n := range []int{-1, -2, 0} {
+					for _, werr := range []error{nil, e1} {
+						if n == 0 && werr == nil {
+							continue // a sink that forever accepts nothing without an error makes bufio spin: outside any contract
+						}
+						evals++
+						sk := &scriptedSyncer{scripted{n: n, err: werr}}
+						ws := &zapcore.BufferedWriteSyncer{WS: sk, Size: size, FlushInterval: time.Hour}
+						desc := fmt.Sprintf("BufferedWriteSyncer{Size:%d} with %d bytes buffered, Write of %d bytes, sink outcome=(%d,%v)", size, pre, plen, n, werr)
+						if pre > 0 {
+							_, _ = ws.Write(bytes.Repeat([]byte{'p'}, pre))
+						}
+						gn, gerr := ws.Write(bytes.Repeat([]byte{'x'}, plen))
+						switch {
+						case gn > plen || gn < 0:
+							run.Report("relay:buffered:count-out-of-range", fmt.Sprintf("%s returned (%d,%v)", desc, gn, gerr), desc)
+						case gn < plen && gerr == nil:
+							run.Report("relay:buffered:short-count-without-error", fmt.Sprintf("%s returned (%d,nil): a short count must come with an error", desc, gn), desc)
+						case n == -1 && werr == nil && (gn != plen || gerr != nil):
+							run.Report("relay:buffered:healthy-sink", fmt.Sprintf("%s returned (%d,%v), want (%d,nil)", desc, gn, gerr, plen), desc)
+						}
+						_ = ws.Stop()
+					}
 				}
 			}
 		}
